@@ -1,6 +1,6 @@
 (* C05: laws of cropping, channel mapping and buffer placement; locality of block decoding. *)
 From Coq Require Import ZArith List Bool Lia.
-From DDSV Require Import model.Crop.
+From DDSV Require Import base.Machine model.Layout model.DecodeScript model.Crop.
 Import ListNotations.
 Local Open Scope Z_scope.
 
@@ -151,3 +151,41 @@ Proof.
   { intros f. rewrite (nth_indep _ [] (f 0%nat)) by (rewrite map_length, seq_length; exact Hx). rewrite map_nth, seq_nth by exact Hx. reflexivity. }
   rewrite !M. fold bi. rewrite E. reflexivity.
 Qed.
+
+(* ---- the bytes a rect decode reads (the effect script of C06, model/DecodeScript.v) are those of the blocks that
+   hold the rectangle: block rows  oy / bh .. div_ceil (oy + h) bh - 1  contain every pixel row of the rectangle, and
+   each of them contains at least one *)
+Local Open Scope N_scope.
+Definition dceil (a b : N) : N := (a + b - 1) / b.
+Theorem rect_block_rows_cover oy h bh y : 1 <= bh -> 1 <= h -> oy <= y < oy + h ->
+  oy / bh <= y / bh < dceil (oy + h) bh.
+Proof.
+  intros Hb Hh Hy. unfold dceil. split; [apply N.div_le_mono; lia|].
+  apply N.div_lt_upper_bound; [lia|].
+  pose proof (N.div_mod (oy + h + bh - 1) bh ltac:(lia)) as E. pose proof (N.mod_lt (oy + h + bh - 1) bh ltac:(lia)) as R.
+  set (q := (oy + h + bh - 1) / bh) in *. set (r := (oy + h + bh - 1) mod bh) in *. nia.
+Qed.
+Theorem rect_block_rows_minimal oy h bh k : 1 <= bh -> 1 <= h -> oy / bh <= k < dceil (oy + h) bh ->
+  exists y, oy <= y < oy + h /\ y / bh = k.
+Proof.
+  intros Hb Hh [Hk1 Hk2]. unfold dceil in Hk2.
+  (* the first row of block row k that is at or after oy *)
+  exists (N.max oy (k * bh)).
+  pose proof (N.div_mod oy bh ltac:(lia)) as E0. pose proof (N.mod_lt oy bh ltac:(lia)) as R0.
+  pose proof (N.div_mod (oy + h + bh - 1) bh ltac:(lia)) as E1. pose proof (N.mod_lt (oy + h + bh - 1) bh ltac:(lia)) as R1.
+  set (q0 := oy / bh) in *. set (r0 := oy mod bh) in *. set (q1 := (oy + h + bh - 1) / bh) in *. set (r1 := (oy + h + bh - 1) mod bh) in *.
+  split.
+  - split; [lia|]. destruct (N.max_spec oy (k * bh)) as [[_ ->]|[_ ->]]; [nia|lia].
+  - destruct (N.max_spec oy (k * bh)) as [[Hlt ->]|[Hge ->]].
+    + rewrite N.div_mul by lia. reflexivity.
+    + (* oy >= k * bh and q0 <= k: so q0 = k *)
+      assert (q0 = k) by nia. subst k. reflexivity.
+Qed.
+Local Close Scope N_scope.
+
+(* the rect script of a block format (C06's model of for_each_block_rect_untyped) reads exactly those block rows *)
+Theorem block_rect_script_rows bpb bw bh W H ox oy w h :
+  script_rect (Block bpb bw bh) W H ox oy w h =
+  let bpl := (div_ceil W bw * bpb)%N in let before := (oy / bh)%N in let to_read := (div_ceil (h + oy) bh - before)%N in
+  [EAlloc (line_buffer_len bpl to_read); ESkip (bpl * before); ERead (bpl * to_read); ESkip (bpl * (div_ceil H bh - before - to_read))].
+Proof. reflexivity. Qed.
